@@ -23,6 +23,8 @@ package identity
 //@ func (*Identity).Merge
 //@   props C09 C02
 //@   nopanic
+//@   modifies i.versions, elems(i.versions), repository.refs, i.versions[0].id, other.versions[0].id
+//@   opt trusted_frame
 //@   let n = len(old(i.versions))
 //@   let m = len(other.versions)
 //@   requires [repo]     repo != nil
@@ -93,17 +95,23 @@ package identity
 //@   props C07 C09
 //@   nopanic
 //@   requires repo != nil
+//@   modifies nothing
+//@   opt trusted_frame
+//@   ensures [non-nil-versions] err == nil ==> result != nil && len(result.versions) > 0 && (forall k int :: { result.versions[k] } 0 <= k && k < len(result.versions) ==> result.versions[k] != nil)
+//@   ensures [fresh]   err == nil ==> fresh(result) && fresh(result.versions) && allocated(result.versions)
+//@   defines [ids-set] err == nil ==> (forall k int :: { result.versions[k] } 0 <= k && k < len(result.versions) ==> result.versions[k].id != "" && result.versions[k].id != entity.UnsetId)
 //@   check [one-version-entry] err == nil ==> (forall k int :: { hashes[k] } 0 <= k && k < len(hashes) ==> repository.treeLen(hashes[k]) == 1 && repository.treeName(hashes[k], 0) == versionEntryName)
 //@   check [has-versions]      err == nil ==> len(hashes) > 0
 //@   loop 1
 //@     invariant forall k int :: { hashes[k] } 0 <= k && k <= rangeindex ==> repository.treeLen(hashes[k]) == 1 && repository.treeName(hashes[k], 0) == versionEntryName
-//@     invariant i != nil && len(i.versions) == rangeindex + 1
+//@     invariant i != nil && fresh(i) && len(i.versions) == rangeindex + 1 && (i.versions == nil || fresh(i.versions))
 //@     invariant forall k int :: { i.versions[k] } 0 <= k && k < len(i.versions) ==> i.versions[k] != nil
 
 // Validation of an identity (C09): an accepted identity has at least one version, and from each version to
 // the next every logical clock is kept (none dropped) and does not decrease.
 //@ func (*Identity).Validate
 //@   props C09
+//@   modifies nothing
 //@   requires i != nil && (forall k int :: { i.versions[k] } 0 <= k && k < len(i.versions) ==> i.versions[k] != nil)
 //@   let n = len(i.versions)
 //@   ensures [has-version]    result == nil ==> n > 0
@@ -120,3 +128,14 @@ package identity
 //@   loop 3
 //@     invariant forall name string :: { (name in lastTimes) } (name in lastTimes) ==> (name in v.times)
 //@     invariant forall name string :: { iterseen[name] } iterseen[name] ==> (name in lastTimes) && lastTimes[name] == v.times[name]
+
+// The goroutine of identity.MergeAll: every remote identity gets a result; only a terminal error (status
+// error) may end the stream early - an invalid or diverged remote identity must not keep the others from
+// being merged (C02).
+//@ func MergeAll$1
+//@   props C02 C09
+//@   requires repo != nil
+//@   check [invalid-does-not-stop] (forall k int :: { sentat(out, k) } 0 <= k && k < sentcount(out) ==> sentat(out, k).Status != entity.MergeStatusError && sentat(out, k).Err == nil) ==> sentcount(out) == len(remoteRefs)
+//@   loop 1
+//@     invariant sentcount(out) == rangeindex + 1
+//@     invariant forall k int :: { sentat(out, k) } 0 <= k && k < sentcount(out) ==> sentat(out, k).Status != entity.MergeStatusError && sentat(out, k).Err == nil
